@@ -319,6 +319,10 @@ func exec1(rec any) *core.Outcome {
 					}
 				}
 			}
+			if n := strings.Count(s, ": "); n != len(ref.items) {
+				fail("string", "%s: String() shows %d entries, the model has %d: %s", tag, n, len(ref.items), s)
+				return out
+			}
 			if len(ref.items) == 0 && (s != "{}" || ks != "{}") {
 				fail("string", "%s: empty map prints %q / %q", tag, s, ks)
 				return out
